@@ -10,7 +10,7 @@ class Spec:
         self.roots = []; self.opaque = []; self.retsites = []
         self.contracts = {}; self.loops = {}; self.loop_headers = {}
         self.pre = []; self.code = []; self.jobs = []; self.name = None; self.files = []
-        self.drop = []; self.replays = {}
+        self.drop = []; self.replays = {}; self.top_contracts = []
 
 def parse_spec(path, spec=None, top=True, seen=None):
     spec = spec or Spec(); seen = seen if seen is not None else set()
@@ -22,7 +22,9 @@ def parse_spec(path, spec=None, top=True, seen=None):
         nonlocal cur, buf
         txt = '\n'.join(buf).strip('\n')
         if cur is None: pass
-        elif cur[0] == 'contract': spec.contracts[cur[1]] = txt
+        elif cur[0] == 'contract':
+            spec.contracts[cur[1]] = txt
+            if top: spec.top_contracts.append(cur[1])
         elif cur[0] == 'loop': spec.loops[(cur[1], int(cur[2]))] = txt
         elif cur[0] == 'pre': spec.pre.append((ap, txt))
         elif cur[0] == 'code' and top: spec.code.append((ap, txt))
@@ -101,9 +103,8 @@ class Unit:
     def build(self):
         em = self.em; ix = self.ix
         for r in self.spec.roots: em.fname(em.find(r))
-        for c in list(self.spec.contracts) :
-            try: em.fname(em.find(c))
-            except Abort: pass   # contract for a spec-level (hand-written) function such as a stub
+        for c in list(self.spec.top_contracts):
+            em.fname(em.find(c))
         protos = []; bodies = []
         while em.queue:
             cid = em.queue.pop(0)
@@ -349,7 +350,9 @@ class Unit:
                     else: lines.append(f"  {lhs} = 0;")
                 if init is not None:
                     s = em.strip(init)
-                    if s.get('kind') == 'InitListExpr' and not kids(s) or (s.get('kind') in ('CXXConstructExpr',) and not kids(s)):
+                    def empty_init(x):
+                        return x.get('kind') == 'ImplicitValueInitExpr' or (x.get('kind') == 'InitListExpr' and all(empty_init(y) for y in kids(x)))
+                    if empty_init(s) or (s.get('kind') in ('CXXConstructExpr',) and not kids(s)):
                         one(f"o.{nm}", t if t.kind != 'atomic' else t.args[0])
                     elif s.get('kind') == 'InitListExpr' and t.kind in ('tuple', 'pair'):
                         lines.append(f"  o.{nm} = ({em.cn(t)}){em.ex(s)};")
